@@ -391,7 +391,13 @@ func (ex *Exec) stepCell(st *State, p *Ptr, depth int, c *Cell, s Step) *Cell {
 	if s.Field >= 0 {
 		if c.Kids == nil || s.Field >= len(c.Kids) {
 			if c.symIdx != nil {
-				return ex.symSelect(c, func(k *Cell) *Cell { return k.Kids[s.Field] })
+				return ex.symSelect(c, func(k *Cell) *Cell {
+					if k.Kids == nil || s.Field >= len(k.Kids) {
+						ex.fail("field access into abstract/leaf element of a symbolically indexed array at %s (step %d)", p, depth)
+						return &Cell{V: sym.Fresh(sym.Any, "abstraction-violated", 0)}
+					}
+					return k.Kids[s.Field]
+				})
 			}
 			ex.fail("field access into abstract/leaf cell at %s (step %d)", p, depth)
 			return &Cell{V: sym.Fresh(sym.Any, "abstraction-violated", 0)}
